@@ -325,7 +325,7 @@ fn gen_side(rng: &mut Rng, total: u32, wide: bool) -> Side {
         try_write: rng.chance(if wide { 1 } else { 1 }, if wide { 3 } else { 8 }),
         reads,
         peek: if rng.chance(1, 4) { rng.range(1, 3) as u8 } else { 0 },
-        close: *rng.pick(&[Close::Shutdown, Close::Shutdown, Close::DropHalf, Close::AfterEof, Close::DropAll]),
+        close: *rng.pick(&[Close::Shutdown, Close::Shutdown, Close::Shutdown, Close::DropHalf, Close::DropHalf, Close::AfterEof, Close::AfterEof, Close::DropAll, Close::DropAll, Close::Abort]),
         wait_first: false,
         read_delay: 0,
         read_after_write: false,
@@ -518,6 +518,14 @@ pub fn generate(rng: &mut Rng, spread: &Spread) -> Scenario {
         udp,
         lo_side: None,
     };
+    if sc.via == Via::Fixture {
+        // (the abortive close is judged on the own wire only, where a lost RST is known)
+        for x in 0..2 {
+            if sc.sides[x].close == Close::Abort {
+                sc.sides[x].close = Close::DropAll;
+            }
+        }
+    }
     if sc.topo.cross() && sc.via == Via::Wire && rng.chance(1, 6) {
         sc.lo_side = Some(LoSide { chunk: *rng.pick(&[200u32, 1500, 3000, 9000]), chunks: rng.range(2, 12) as u8, gap: rng.range(0, 2) as u8 });
     }
